@@ -125,7 +125,11 @@ def devLine (j : Json) : String :=
   let dflt := mods.any fun s => jstr s "deviate" = "add-default"
   let note := mods.any fun s => jbool s "noteaug"
   "dev:slot-config=" ++ (if cfgFalse then "false" else "true") ++ (if dflt then " target-default=one" else " target-default-none") ++
-    " note-aug=" ++ (if note then "true" else "false")
+    " note-aug=" ++ (if note then "true" else "false") ++
+    -- the rpc and the notification written in mc's submodule mcs1 (which mc includes) are mc's
+    (let sub := mods.any fun s => jstr s "name" = "mc" && ((jarr s "subs").any fun u => jbool u "subrpc" && ((jarr s "includes").map strOf).contains (jstr u "name"))
+     let has := mods.any fun s => jstr s "name" = "mc"
+     if has then " sub-rpc=" ++ (if sub then "true" else "false") ++ " sub-note=" ++ (if sub then "true" else "false") else "")
 
 def handle (j : Json) : List (String × Json) :=
   let out (v : String) := "V:" ++ v ++ (if v = "ok" then "\n" ++ devLine j else "") ++ "\nskip:no-panic\ndet:stable"
